@@ -51,6 +51,37 @@ class P(Prop):
                     a = [rng.choice([1.2e308, -1.1e308, 1.7976931348623157e308, 1e292]) for _ in range(n)]
                     b = [rng.choice([1.1e308, -1.2e308, 1e292, 1.7976931348623157e308]) for _ in range(n)]
                     out.append(K.kernel_case(name, a + b, cls="addsub/overflow"))
+            if name.endswith("::add") or name.endswith("::sub"):
+                # b = -a (for add; +a for sub) up to ONE unit in the last place in some lanes: the exact, tiny, result must survive
+                for _ in range(max(2, per)):
+                    n = ar // 2
+                    a = [rng.choice([1.0, 1.0 + 2.0 ** -52, -3.0, 0.75, 2.0 ** 40, rng.uniform(-3, 3)]) for _ in range(n)]
+                    sgn = -1.0 if name.endswith("::add") else 1.0
+                    b = []
+                    for v_ in a:
+                        r_ = rng.random()
+                        nb = C.fl(C.next_up(C.bits(abs(v_)))) if r_ < 0.4 else (C.fl(C.next_down(C.bits(abs(v_)))) if r_ < 0.7 else abs(v_))
+                        b.append(sgn * (nb if v_ >= 0 else -nb))
+                    out.append(K.kernel_case(name, a + b, cls="addsub/one_ulp_apart"))
+            if name.endswith("::mul") or name.endswith("::mul_assign") or name.endswith("::neg"):
+                # coefficient vectors whose entries SUM to exactly zero (x-1, (x-1)^4, c - c x^k), sparse vectors, all-equal vectors
+                n = (ar - 1) if not name.endswith("::neg") else ar
+                for _ in range(max(2, per)):
+                    st = rng.choice(["zero_sum", "zero_sum", "sparse", "binomial"])
+                    if st == "binomial" and n >= 2:
+                        import math
+                        cs = [float((-1) ** i * math.comb(n - 1, i)) for i in range(n)]
+                    elif st == "sparse":
+                        cs = [rng.choice([0.0, 0.0, -0.0, rng.uniform(-3, 3), 2.0]) for _ in range(n)]
+                    else:
+                        cs = [0.0] * n
+                        i, j = (rng.sample(range(n), 2) if n >= 2 else (0, 0))
+                        v_ = rng.choice([2.0, 1.5, -3.0, rng.uniform(0.5, 4)])
+                        cs[i] = v_
+                        if n >= 2:
+                            cs[j] = -v_
+                    args = cs + ([rng.choice([3.0, 0.5, -2.5, 0.0, rng.uniform(-4, 4)])] if not name.endswith("::neg") else [])
+                    out.append(K.kernel_case(name, args, cls=name.split("::")[-1] + "/" + st))
             if name.endswith("::translate"):
                 # shifts of the order of one unit in the last place of the constant (0.3 .. 3 ulps): the sum must still be the
                 # correctly rounded one
